@@ -160,6 +160,7 @@ def check(case, mon, ctx):
     if any(r['lines'] for r in case['regions']):
         mon.mark_nontrivial()
     mon.count('fixpoints')
+    mon.observe('re-exported document', strip_ts(x2))
     if strip_ts(x2) != strip_ts(x3):
         d = next((k for k, (a, b) in enumerate(zip(strip_ts(x2), strip_ts(x3))) if a != b), min(len(x2), len(x3)))
         mon.violation('fixpoint', {'at': d, 'x2': strip_ts(x2)[max(0, d - 80):d + 80], 'x3': strip_ts(x3)[max(0, d - 80):d + 80]})
